@@ -1,4 +1,9 @@
 (* C09 model driver: same line protocol as harness/drivers/c09_driver.c
+   In addition to the functional models (Model.v) the heap-level models
+   (ModelHeap.v: node ids, left/right/parent and prev/next links) are run
+   alongside on short cases; the "chk" line fails when the heap program gets
+   stuck, answers differently, no longer reads back as the functional tree /
+   bucket, or has an inconsistent parent / prev link.
    header:  avl <cap> | ht <cap> <table_size> <id|zero|low|mul|def> | trie <cap>
    avl ops: ins k v | find k | rem k            -> result / "t <pre-order dump>" / "chk ..."
    ht ops : put k v | find k | rem k | dump     -> result / "chk ok n=<count>"
@@ -13,11 +18,22 @@ let rec dump_tree buf = function
     Buffer.add_string buf (Printf.sprintf " %s=%s:%s" (string_of_z k) (string_of_z v) (string_of_z b));
     dump_tree buf l; dump_tree buf r
 
-let print_avl t =
+let heap_limit = 48   (* the heap models are closures over nat ids: only short cases *)
+
+let print_avl t (hs : (hst * bool) option) =
   let buf = Buffer.create 256 in
   dump_tree buf t;
   print_string "t"; print_endline (Buffer.contents buf);
-  print_endline (if avl_okb t then "chk ok" else "chk FAIL model-invariant")
+  let heap_verdict = match hs with
+    | None -> None
+    | Some (_, false) -> Some "heap-model stuck or answered differently"
+    | Some (s, true) ->
+      (match habs s.hnext s.hheap s.hroot with
+       | Some t' when t' = t ->
+         if hparents_ok s.hnext s.hheap s.hroot None then None else Some "heap-model parent link"
+       | _ -> Some "heap-model tree differs") in
+  print_endline (if not (avl_okb t) then "chk FAIL model-invariant"
+                 else match heap_verdict with None -> "chk ok" | Some w -> "chk FAIL " ^ w)
 
 let opt_line tag = function
   | Some v -> print_endline (tag ^ " " ^ string_of_z v)
@@ -50,15 +66,27 @@ let handle (lines : string list) : unit =
      | "avl" :: _ ->
        print_endline "init ok";
        let t = ref Leaf in
+       let hs = ref (if List.length ops <= heap_limit then Some (havl_init, true) else None) in
+       let hstep o expect =
+         (match !hs with
+          | Some (s, true) ->
+            (match havl_step s o with
+             | Some (s', r) -> hs := Some (s', r = expect)
+             | None -> hs := Some (s, false))
+          | _ -> ()) in
        List.iter (fun l ->
          match words l with
          | ["ins"; k; v] ->
            let (t', ok) = avl_insert (z_of_string k) (z_of_string v) !t in
-           t := t'; print_endline ("ins " ^ string_of_bool01 ok); print_avl !t
-         | ["find"; k] -> opt_line "find" (avl_find (z_of_string k) !t); print_avl !t
+           t := t'; hstep (Ins (z_of_string k, z_of_string v)) (RIns ok);
+           print_endline ("ins " ^ string_of_bool01 ok); print_avl !t !hs
+         | ["find"; k] ->
+           let r = avl_find (z_of_string k) !t in
+           hstep (Find (z_of_string k)) (RFind r); opt_line "find" r; print_avl !t !hs
          | ["rem"; k] ->
            let (t', ok) = avl_remove (z_of_string k) !t in
-           t := t'; print_endline ("rem " ^ string_of_bool01 ok); print_avl !t
+           t := t'; hstep (Rem (z_of_string k)) (RRem ok);
+           print_endline ("rem " ^ string_of_bool01 ok); print_avl !t !hs
          | _ -> print_endline "?") ops
      | "ht" :: _ :: ts :: kind :: _ ->
        print_endline "init ok";
@@ -66,16 +94,47 @@ let handle (lines : string list) : unit =
          | "id" -> hash_id | "zero" -> hash_zero | "low" -> hash_low | "mul" -> hash_mul
          | _ -> (fun k -> str_hash (bytes_of_string (string_of_z k))) in
        let t = ref (ht_init (z_of_string ts)) in
-       let chk () = print_endline (Printf.sprintf "chk ok n=%d" (ht_count !t)) in
+       let small = List.length ops <= heap_limit && int_of_z !t.ht_size <= 64 in
+       let hs = ref (if small then Some (hht_init (z_of_string ts), true) else None) in
+       let hstep o expect =
+         (match !hs with
+          | Some (s, true) ->
+            (match hht_step hash s o with
+             | Some (s', r) -> hs := Some (s', r = expect)
+             | None -> hs := Some (s, false))
+          | _ -> ()) in
+       let heap_ok () = match !hs with
+         | None -> true
+         | Some (_, false) -> false
+         | Some (s, true) ->
+           let ok = ref true in
+           List.iteri (fun i b -> if hht_bucket hash s (nat_of_int i) <> Some b then ok := false) !t.ht_buckets;
+           !ok in
+       let chk () =
+         if heap_ok () then print_endline (Printf.sprintf "chk ok n=%d" (ht_count !t))
+         else print_endline "chk FAIL heap-model" in
        List.iter (fun l ->
          match words l with
          | ["put"; k; v] ->
            let (t', ok) = ht_put hash !t (z_of_string k) (z_of_string v) in
-           t := t'; print_endline ("put " ^ string_of_bool01 ok); chk ()
-         | ["find"; k] -> opt_line "find" (ht_find hash !t (z_of_string k)); chk ()
+           t := t'; hstep (Ins (z_of_string k, z_of_string v)) (RIns ok);
+           print_endline ("put " ^ string_of_bool01 ok); chk ()
+         | ["find"; k] ->
+           let r = ht_find hash !t (z_of_string k) in
+           hstep (Find (z_of_string k)) (RFind r); opt_line "find" r; chk ()
          | ["rem"; k] ->
            let (t', ok) = ht_remove hash !t (z_of_string k) in
-           t := t'; print_endline ("rem " ^ string_of_bool01 ok); chk ()
+           t := t'; hstep (Rem (z_of_string k)) (RRem ok);
+           print_endline ("rem " ^ string_of_bool01 ok); chk ()
+         | ["hash"; k] ->
+           (* value of the table's hash function on this key (default string hash for kind def) *)
+           print_endline ("hash " ^ string_of_z (hash (z_of_string k))); chk ()
+         | ["where"; k] ->
+           (* index of the bucket whose chain holds the key *)
+           (match ht_find hash !t (z_of_string k) with
+            | Some _ -> print_endline (Printf.sprintf "where %d" (int_of_nat (ht_idx hash !t (z_of_string k))))
+            | None -> print_endline "where none");
+           chk ()
          | ["dump"] ->
            let all = List.sort (fun (a, _) (b, _) -> zcmp a b) (List.concat !t.ht_buckets) in
            print_endline (String.concat " " ("d" :: List.map (fun (k, v) -> string_of_z k ^ "=" ^ string_of_z v) all));
